@@ -235,7 +235,7 @@ def gen_doc(rng, g, s):
     # frontmatter variants: mapping (good / wrong types / other keys), scalar, list, comment only, broken YAML; absent otherwise.
     # (a BLANK frontmatter block is a lenient spelling of "absent": the canonical text drops it -- added per respelling in build_texts)
     if d["grammar"] is None and rng.random() < (0.7 if s["fm"] else 0.2):
-        d["front"] = rng.choice(FRONT_VARIANTS)
+        d["front"] = rng.choice(FRONT_VARIANTS) if rng.random() < 0.35 else rng.choice(list(FRONT_WS_SHAPES.values()))
     elif d["grammar"] is None and rng.random() < 0.5:
         d["front"] = None
     return d
@@ -243,6 +243,37 @@ def gen_doc(rng, g, s):
 
 FRONT_VARIANTS = ["name: Agent (x)", "name: [1]\ntags: x", "tags: [a, b]", "a: 1\nb: [2]", "name: x\ntags: [q]", "name: x\nflag: true\nversion: \"1\"",
                   "name: skill\ndescription: d\nallowed-tools: [Read]", "just text", "- a\n- b", "# only a comment", "name: [x", "42", "flag: yes\nname: 1"]
+# whitespace shapes YAML cares about and a text-level strip / dedent / rstrip / newline normalisation would change.  One mapping that is
+# valid for the shipped SKILL schema and for the generated FRONTMATTER schemas (name, description, allowed-tools, tags, flag, version).
+_FM_BASE = ["name: skill", "description: d", "allowed-tools: [Read]", "tags: [a]", "flag: true", 'version: "1"']
+FRONT_WS_SHAPES = {
+    "plain": "\n".join(_FM_BASE),
+    "indented-2 (first line indented)": "\n".join("  " + l for l in _FM_BASE),
+    "indented-4": "\n".join("    " + l for l in _FM_BASE),
+    "indented-1": "\n".join(" " + l for l in _FM_BASE),
+    "leading blank line": "\n" + "\n".join(_FM_BASE),
+    "trailing blank line": "\n".join(_FM_BASE) + "\n",
+    "blank lines both ends": "\n\n" + "\n".join(_FM_BASE) + "\n\n",
+    "leading blank + indented": "\n" + "\n".join("  " + l for l in _FM_BASE),
+    "indented + trailing blank": "\n".join("   " + l for l in _FM_BASE) + "\n   ",
+    "trailing spaces": "\n".join(l + "  " for l in _FM_BASE),
+    "trailing space on last line": "\n".join(_FM_BASE) + " ",
+    "tabs after values": "\n".join(l + "\t" for l in _FM_BASE),
+    "tab after last value": "name: skill\ndescription: d\nallowed-tools: [Read]\nversion: v1\t",
+    "CRLF inside": "\r\n".join(_FM_BASE),
+    "CRLF + indented": "\r\n".join("  " + l for l in _FM_BASE),
+    "block scalar (YAML-looking lines)": "description: |\n  a: b\n    more\n  c\n" + "\n".join(_FM_BASE[:1] + _FM_BASE[2:]),
+    "block scalar last, trailing spaces": "\n".join(_FM_BASE[:1] + _FM_BASE[2:]) + "\ndescription: |\n  text  \n  last  ",
+    "block scalar keep (+)": "\n".join(_FM_BASE[:1] + _FM_BASE[2:]) + "\ndescription: |+\n  keep\n",
+    "block scalar strip (-) indented block": "\n".join("  " + l for l in _FM_BASE[:1] + _FM_BASE[2:]) + "\n  description: >-\n    folded\n    text",
+    "nested mapping": "meta:\n  a: 1\n  b:\n    - x\n" + "\n".join(_FM_BASE),
+    "nested mapping as name": "name:\n  first: x\n" + "\n".join(_FM_BASE[1:]),
+    "block sequences": "name: skill\ndescription: d\nallowed-tools:\n  - Read\n  - Write\ntags:\n- a\n- b",
+    "value-less last line": "\n".join(_FM_BASE) + "\nextra:",
+    "leading comment": "# c\n" + "\n".join(_FM_BASE),
+    "indented, name missing": "\n".join("  " + l for l in _FM_BASE[1:]),
+    "indented, wrong types": "  name: [x]\n  description: d\n  allowed-tools: Read\n  tags: t\n  flag: 3",
+}
 BLANK_FRONTS = ["---\n---\n", "---\n\n---\n", "---\n  \n---\n\n", "---\n---\n\n\n", "--- \n\t\n---\n"]
 
 
@@ -555,6 +586,12 @@ def build_texts(d, seed, reps, tally):
             rng.random = lambda: 0.0           # the corner where every freedom is taken
         d2, nsites = respell_numbers(d, rng)
         t, _, sites = render.render(d2, rng)
+        if d["front"] is not None and d["front"].strip() and rng.random() < 0.3:
+            head = "---\n" + d["front"] + "\n---\n\n"
+            if t.startswith(head):       # layout after the closing fence: no blank line / trailing space / more blank lines
+                t = "---\n" + d["front"] + rng.choice(["\n---\n", "\n--- \n\n", "\n---\n\n\n"]) + t[len(head):]
+                sites += 1
+                tally.hist("frontmatter_fence_layout_respellings", "yes")
         if d["front"] is None and d["grammar"] is None and rng.random() < 0.35:
             t = rng.choice(BLANK_FRONTS) + t          # a blank YAML frontmatter block: dropped by canonicalisation
             sites += 1
@@ -596,6 +633,7 @@ def work(case):
     tdict = dict(texts)
     base_case = {"schema": case["schema_text"], "schema_name": name}
     obs_all = {}
+    rt_notes = {}
     for ti, (label, text) in enumerate(texts):
         try:
             got = astcodec.doc_to_neutral(parse_with_warnings(text)[0])
@@ -605,9 +643,12 @@ def work(case):
         got = json.loads(json.dumps(got))          # plain JSON types on both sides (content, not Python classes)
         if isinstance(got.get("front"), str) and got["front"].strip() == "" and exp.get("front") is None:
             got["front"] = None                        # blank frontmatter block = lenient spelling of "no frontmatter"
-        if docprops.first_diff(exp, got) or docprops.first_diff(got, exp):
-            tally.hist("text_skipped", "content-differs")
-            continue
+        rt = docprops.first_diff(exp, got) or docprops.first_diff(got, exp)
+        if rt:
+            # the document falsifies no wf clause, so this is no KNOWN C01-C03 class: the text is still observed (a verdict difference is
+            # a C09 violation whatever its cause); the round-trip miss itself is C02's to report and is only counted here
+            tally.hist("text_roundtrip_miss", "content differs at " + re.sub(r"\d+", "#", str(rt[0])))
+            rt_notes[label] = {"path": rt[0], "expected": repr(rt[1])[:200], "read": repr(rt[2])[:200]}
         full = (label == "canon") or case["full"]
         rot = PROFILES[(case["id"] + ti) % 4]
         seconds = {"STANDARD", case["second"]} if full else ({rot} if ti % 2 == 0 else set())
@@ -676,7 +717,8 @@ def work(case):
                     continue
                 if v != b:
                     fid = F_BLANKFM if (blank_unloadable_front(tdict[label]) and only_fm_pairs_differ(b, v)) else None
-                    tally.fail(dict(base_case, surface=k, text_a=tdict["canon"], label_b=label, text_b=tdict[label], observed_a=b, observed_b=v, doc=d),
+                    tally.fail(dict(base_case, surface=k, text_a=tdict["canon"], label_b=label, text_b=tdict[label], observed_a=b, observed_b=v, doc=d,
+                                    content_read_back_differs=rt_notes or None),
                                "%s: a respelling / the canonical text is validated differently" % k.split(":")[0], finding=fid)
     if case["id"] == 0:
         out["sample"] = {"schema": case["schema_text"], "texts": texts[:3], "observed_on_canonical": base}
@@ -1089,6 +1131,8 @@ def run_corpus(ctx, root):
         texts = list(rec["texts"])
         if rec.get("add_canonical"):
             texts.append(tool_obs(texts[0], name)[1])
+            if rec.get("all_surfaces") and isinstance(texts[-1], str):
+                texts.append(tool_obs(texts[-1], name)[1])          # canonical of the canonical text
         if rec.get("all_surfaces"):          # every profile, Validator API, octave_validate, octave_write on every text
             all_obs = []
             for t in texts:
@@ -1198,7 +1242,8 @@ def run(ctx):
         "into which a block named like the schema is inserted: each field omitted / documented-good value / random value / "
         "duplicated, unknown fields, nested block, orphan comment; sometimes a second block of the name, the name below a "
         "section/inside a block, or as an assignment; META block with good/bad TYPE, VERSION, STATUS. Only documents that falsify "
-        "no wf clause (extracted Syn.Wf) and only texts that read back to the document's content are used. texts per document: "
+        "no wf clause (extracted Syn.Wf) are used (known C01-C03 classes stay with their owners); a text that does not read back to the "
+        "document's content is counted (text_roundtrip_miss) and still observed. texts per document: "
         "canonical, %d respellings (every render freedom toggled per site + number lexemes 1.0/1.00/1e0/05; one all-freedoms corner), "
         "canon(x), canon(canon(x)). quick: every surface and all four profiles on every text; thorough: all of them on the canonical "
         "text and on every text of each tenth document, on the other texts STANDARD + one rotating profile, one write mode, repeat-call "
@@ -1212,9 +1257,13 @@ def run(ctx):
         "ValidateTool and ONE WriteTool serve an interleaving of fix=False / fix=True / fix=False on the identical text, respellings, "
         "octave_write lenient on/off, and a shuffled second pass; every response must equal the response of a FRESH instance for the same "
         "call (timestamps and message texts masked) and every fix=False response must carry emit(parse_with_warnings(x)[0]). "
-        "frontmatter: 30%% of the schemas declare FRONTMATTER fields (required/optional/all-optional), 1 in 20 documents goes against the "
+        "frontmatter: 30%% of the schemas declare FRONTMATTER fields (required/optional/all-optional), 1 in 10 documents goes against the "
         "shipped SKILL schema; documents carry mapping / scalar / list / comment-only / broken-YAML / no frontmatter, and respellings of "
-        "documents without frontmatter get, with p=0.35, a BLANK frontmatter block (5 spellings) that canonicalisation drops." % reps)
+        "documents without frontmatter get, with p=0.35, a BLANK frontmatter block (5 spellings) that canonicalisation drops. "
+        "frontmatter whitespace shapes (%d): uniformly indented mappings (first line indented, 1/2/4 columns), leading / trailing blank lines "
+        "inside the block, trailing spaces, tabs after values, CRLF, block scalars (| |+ >-, YAML-looking lines, trailing spaces on the last "
+        "line), nested mappings, block sequences, value-less last line; 1 document in 10 goes against SKILL with such a frontmatter; the "
+        "layout after the closing fence is a respelling freedom." % (reps, len(FRONT_WS_SHAPES)))
     root = tempfile.mkdtemp(prefix="c09_")
     old = os.getcwd()
     rng = ctx.rng
@@ -1280,8 +1329,10 @@ def run(ctx):
         for i, (s, d) in enumerate(cases):
             use_meta = (i % 5 == 4)            # every fifth document is validated against the builtin dict schema META
             sname = "META" if use_meta else s["name"]
-            if i % 20 == 7:
+            if i % 10 == 7:
                 use_meta, sname = True, "SKILL"   # the shipped schema file that declares a FRONTMATTER block
+                if d["grammar"] is None and rng.random() < 0.85:
+                    d["front"] = rng.choice(list(FRONT_WS_SHAPES.values())) if rng.random() < 0.8 else rng.choice(FRONT_VARIANTS)
             cli = 1 if (use_meta or i % 7 == 0) else 0
             if not ctx.quick() and i % 400 == 0:
                 cli = 2                          # real subprocess
@@ -1289,6 +1340,9 @@ def run(ctx):
             work_items.append({"id": i, "schema": sname, "schema_text": None if use_meta else s["text"], "doc": d, "seed": rng.random(),
                                "reps": reps, "cli": cli, "second": PROFILES[i % 4], "topy": i % 3 == 0, "full": ctx.quick() or i % 10 == 0})
             ctx.hist("schema_kind", ("shipped " + sname) if use_meta else ("generated+FRONTMATTER" if s["fm"] else "generated"))
+            _shape = next((k for k, v in FRONT_WS_SHAPES.items() if v == d["front"]), None)
+            if _shape:
+                ctx.hist("frontmatter_whitespace_shape", _shape)
             ctx.hist("frontmatter_of_document", "absent" if d["front"] is None else ("mapping" if ":" in d["front"] and not d["front"].startswith(("#", "-")) and "[x" not in d["front"] else "scalar/list/comment/broken"))
         # ---- schema-object-reuse stream (Validator API): one loaded SchemaDefinition per sequence
         from octave_mcp.core.parser import parse_with_warnings as _pww
